@@ -38,6 +38,33 @@ def hexLower40 (n : Nat) : Str := (toDigits 16 40 n).map hexDigitLower
 /-- 40 lower-case hexadecimal digits: the form of `Torrent.infohash` -/
 def LowerHex40 (s : Str) : Bool := decide (s.length = 40) && s.all fun c => isDigit c || inR 97 102 c
 
+/-- an assignment judged on its own: the value stored if it is accepted -/
+def specAssign : HashOp → Option Str
+  | .xt v => if xtAccepts v then some (xtStored v) else none
+  | .infohash v => if infohashAccepts v then some v else none
+
+/-- What the property demands of a history of assignments and conversions on one object: every
+    assignment is judged on its own (accepted iff valid, else the magnet error and no change), and
+    every conversion shows the 40-digit form of the number denoted by the value accepted *last* —
+    not of any value the object held when it was converted before. -/
+def specUse (cur : HState) : List UseOp → List UseObs × HState
+  | [] => ([], cur)
+  | .assign op :: ops =>
+    match specAssign op with
+    | some s => let rs := specUse (some s) ops; (.assigned none :: rs.1, rs.2)
+    | none => let rs := specUse cur ops; (.assigned (some .magnet) :: rs.1, rs.2)
+  | .convert :: ops =>
+    let rs := specUse cur ops
+    ((match cur with | some s => .converted (.ok (hexLower40 (hashVal s))) | none => .unset) :: rs.1, rs.2)
+
+/-- hypothesis of `C14_convert_history`: no assigned value contains a character that
+    `re.IGNORECASE` folds (finding D14f) -/
+def useNoFold : List UseOp → Bool
+  | [] => true
+  | .assign (.xt v) :: ops => NoFold v && useNoFold ops
+  | .assign (.infohash v) :: ops => NoFold v && useNoFold ops
+  | .convert :: ops => useNoFold ops
+
 /-- expected `%XX`-encoding of the 20 hash bytes in the tracker request -/
 def hashBytesEnc (n : Nat) : Str := (toDigits 256 20 n).flatMap quoteByte
 
